@@ -171,6 +171,7 @@ func (c *Contracts) ParseFile(path, pkgPath string) error {
 	}
 	var cur *Unit
 	var curLoop *LoopSpec
+	extending := false
 	mkClause := func(r rawClause) (Clause, error) {
 		text := r.text
 		name := ""
@@ -182,6 +183,9 @@ func (c *Contracts) ParseFile(path, pkgPath string) error {
 		e, err := ParseExpr(text)
 		if err != nil {
 			return Clause{}, fmt.Errorf("%s:%d: %v", path, r.line, err)
+		}
+		if extending && name == "" {
+			return Clause{}, fmt.Errorf("%s:%d: clauses of an `extend` unit must carry a label", path, r.line)
 		}
 		if strings.HasPrefix(name, "def_") {
 			c.Scan = append(c.Scan, fmt.Sprintf("%s:%d: definitional ghost effect (assumed at call sites, not checked in the body): %s", filepath.Base(path), r.line, text))
@@ -224,12 +228,33 @@ func (c *Contracts) ParseFile(path, pkgPath string) error {
 				}
 			}
 			key := unitKey(pkgPath, name)
-			if _, dup := c.Units[key]; dup {
-				return fmt.Errorf("%s:%d: duplicate unit %s", path, r.line, key)
+			if ex, dup := c.Units[key]; dup {
+				if !u.Opts["extend"] {
+					return fmt.Errorf("%s:%d: duplicate unit %s", path, r.line, key)
+				}
+				// `func NAME extend [props ...]`: more clauses for a unit declared in an earlier file (files load in name
+				// order, so extension files are named zz_contracts_z<topic>_verif.go); clauses added here must be labelled
+				for _, p := range u.Props {
+					if !containsStr(ex.Props, p) {
+						ex.Props = append(ex.Props, p)
+					}
+				}
+				for o := range u.Opts {
+					if o != "extend" {
+						ex.Opts[o] = true
+					}
+				}
+				cur = ex
+				curLoop = nil
+				extending = true
+				continue
+			} else if u.Opts["extend"] {
+				return fmt.Errorf("%s:%d: extend of unknown unit %s (extension files must sort after the file that declares the unit: name them zz_contracts_z<topic>_verif.go)", path, r.line, key)
 			}
 			c.Units[key] = u
 			cur = u
 			curLoop = nil
+			extending = false
 		case "end":
 			cur = nil
 			curLoop = nil
@@ -343,6 +368,9 @@ func (c *Contracts) ParseFile(path, pkgPath string) error {
 				return fmt.Errorf("%s:%d: loop ordinal: %v", path, r.line, err)
 			}
 			ls := &LoopSpec{Ordinal: ord}
+			if ex := cur.Loops[ord]; ex != nil && extending {
+				ls = ex
+			}
 			for i := 1; i < len(fields); i++ {
 				if fields[i] == "vars" && i+1 < len(fields) {
 					ls.Vars = strings.Split(fields[i+1], ",")
@@ -567,4 +595,13 @@ func (c *Contracts) unitsForProp(prop string) []*Unit {
 	}
 	sort.Slice(us, func(i, j int) bool { return unitKey(us[i].Pkg, us[i].Func) < unitKey(us[j].Pkg, us[j].Func) })
 	return us
+}
+
+func containsStr(l []string, x string) bool {
+	for _, y := range l {
+		if y == x {
+			return true
+		}
+	}
+	return false
 }
